@@ -619,6 +619,89 @@ func (r *run) resetCollection(e Ev) {
 	}
 }
 
+// parCollection: two callers create the same new collection at the same moment, their database commands
+// interleaved by the event's seeded choice, and the database sits on one write of each for a while.
+// As soon as one of them is through - the collection exists - an application starts to use it: a new
+// client registers, creates a datatype and pushes. Then the other creator's write arrives.
+// Demanded: both calls are answered; the name has one document; the number the collection had when
+// the first client registered is the number it keeps (only ResetCollection hands out a new one).
+func (r *run) parCollection(e Ev) {
+	w := r.w
+	name := fmt.Sprintf("late%d", len(r.colls)+1)
+	g := kernel.NewRng(e.S + 99)
+	names := []string{"admin-a", "admin-b"}
+	dones := make([]chan callResult, 2)
+	for i := range names {
+		i := i
+		dones[i] = make(chan callResult, 1)
+		ep := &endpoint{t: w.tr, name: names[i]}
+		go func() {
+			m, err := ep.t.issue(ep.name, "CreateCollection", &model.CollectionMessage{Collection: name})
+			dones[i] <- callResult{msg: m, err: err}
+		}()
+		synctest.Wait()
+	}
+	f := &focus{calls: map[*call]bool{}, owners: map[string]bool{}}
+	for _, c := range w.tr.byState("queued") {
+		if c.client == names[0] || c.client == names[1] {
+			f.calls[c] = true
+			f.owners[callOwner(c)] = true
+		}
+	}
+	r.probe("collection-created-twice-at-once")
+	var firstNum int32
+	r.whileStalled = func() bool {
+		firstNum = r.collNum(name)
+		if firstNum == 0 {
+			return false // nobody is through yet
+		}
+		r.probe("client-joins-between-two-creators")
+		r.logf("  collection %s exists (number %d) while the other creator's write is still with the database: a client starts to use it", name, firstNum)
+		a := w.newActor(name, false)
+		r.mon.honest[a.name] = true
+		wasAuto := w.mongo.Auto
+		w.mongo.Auto = true
+		r.connect(a)
+		w.mongo.Auto = wasAuto
+		r.open(a, Ev{T: "open", A: a.idx, K: "k1", Kind: "counter", Mode: "create"})
+		if d := a.dt(0); d != nil {
+			r.local(a, d, apiOf(d.pub), Ev{T: "local", A: a.idx, Op: "inc", Delta: 7})
+		}
+		cur := r.cur
+		r.syncEvent([]*actor{a}, Ev{T: "sync", A: a.idx})
+		r.cur = cur
+		return true
+	}
+	mf := []MongoFault{{At: 2 + g.Intn(2), Kind: "stall"}}
+	r.pump(f, g, mf, false, "")
+	r.whileStalled = nil
+	synctest.Wait()
+	for i := range names {
+		select {
+		case res := <-dones[i]:
+			r.logf("CreateCollection(%s) by %s -> err=%v", name, names[i], res.err)
+		default:
+			r.fail("answered", r.prop+".answered", "no-answer/create-collection", "CreateCollection(%s) sent together with another one for the same name got no answer", name)
+		}
+	}
+	n := 0
+	for _, d := range r.docsOf(schema.CollectionNameCollections) {
+		var cd schema.CollectionDoc
+		if decodeInto(d, &cd) == nil && cd.Name == name {
+			n++
+		}
+	}
+	if n > 1 {
+		r.fail("iso", "C17.one-collection-per-name", "two-documents", "after two simultaneous CreateCollection(%s) calls the name has %d collection documents", name, n)
+	}
+	if n == 1 {
+		r.colls = append(r.colls, name)
+	}
+	if now := r.collNum(name); firstNum != 0 && now != firstNum {
+		r.fail("iso", "C17.collection-number-stable", "renumbered-by-second-creator", "collection %s had number %d when its first client registered and created a datatype; the second of two simultaneous CreateCollection calls changed it to %d: everything stored under %d belongs to no collection any more", name, firstNum, now, firstNum)
+	}
+}
+
 // ghostSync: a client whose registration was removed by ResetCollection goes on as if nothing had
 // happened. "Resetting a collection removes ... clients": it is a stranger now, its request is
 // refused and changes nothing.
